@@ -46,6 +46,11 @@ BASES = {
     "column_str": (dict(S.comp(name="b", dtype="str"), kind="column"), _t()),
     "index": (dict(S.comp(name="idx", dtype="int64"), kind="index"),
               _t(index={"kind": "single", "values": [10, 20, 30], "dtype": "int64", "name": "idx"})),
+    "multiindex": ({"kind": "multiindex", "levels": [S.comp(name="k1", dtype="str"), S.comp(name="k2", dtype="int64")],
+                    "strict": False, "ordered": True, "unique": None, "coerce": False},
+                   {"cols": copy.deepcopy(T1["cols"][:2]),
+                    "index": {"kind": "multi", "levels": [{"values": ["p", "q", "r"], "dtype": "object", "name": "k1"},
+                                                          {"values": [1, 2, 3], "dtype": "int64", "name": "k2"}]}}),
 }
 
 CHECKS_BY_KIND = {
@@ -72,9 +77,9 @@ KIND_OF_DTYPE = {"int64": "int", "float64": "float", "str": "str"}
 
 CELL_VALUES = {
     # (new value, new physical dtype or None to keep)
-    "int64": [(0, None), (2, None), (4, None), (None, "float64"), ("q", "object")],
+    "int64": [(0, None), (2, None), (4, None), (-2, None), (None, "float64"), ("q", "object")],
     "float64": [(0.5, None), (2.5, None), (None, None)],
-    "object": [("x", None), ("", None), (None, None), ("xz", None), (5, None)],
+    "object": [("x", None), ("", None), (None, None), ("xz", None), (5, None), (" x ", None)],
 }
 
 
@@ -87,6 +92,10 @@ def _targets(spec):
     if kind == "frame":
         for c in spec["cols"]:
             out.append((f"col:{c['name']}", c))
+    elif kind == "multiindex":
+        for l in spec["levels"]:
+            out.append((f"level:{l['name']}", l))
+        return out
     else:
         out.append(("self", spec))
     ix = spec.get("index")
@@ -136,7 +145,7 @@ def schema_edits(spec, parsers=False, rich=True):
                 if dflt is not None:
                     eds.append(["set", tid, "default", dflt])
                 if c["dtype"] in ("int64", "float64"):
-                    eds.append(["set", tid, "parsers", ["add1"]])
+                    eds.append(["set", tid, "parsers", ["abs"]])
                 if c["dtype"] == "str":
                     eds.append(["set", tid, "parsers", ["strip"]])
             if kind != "frame" or tid.startswith("col:"):
@@ -162,6 +171,9 @@ def schema_edits(spec, parsers=False, rich=True):
             eds.append(["frame", "strict", "filter"])
             eds.append(["frame", "add_missing_columns", True])
             eds.append(["frame", "drop_invalid_rows", True])
+    elif kind == "multiindex":
+        if parsers:
+            eds.append(["frame", "coerce", True])
     elif parsers:
         eds.append(["set", "self", "drop_invalid_rows", True])
     return [e for e in eds if e is not None]
@@ -225,7 +237,7 @@ def data_edits(table, rich=True):
     if rich:
         eds.append(["duplabel", names[0]])
     for c in table["cols"]:
-        for nd in {"int64": ["float64", "object", "Int64"], "object": ["string"], "float64": []}.get(c["dtype"], []):
+        for nd in {"int64": ["float64", "object", "Int64", "numstr"], "object": ["string"], "float64": []}.get(c["dtype"], []):
             if nd in ("Int64", "string") and not rich:
                 continue
             eds.append(["coldtype", c["name"], nd])
@@ -344,6 +356,12 @@ def apply_data_edit(table, e):
             return None
         if e[2] == "float64":
             c["values"] = [None if v is None else float(v) for v in c["values"]]
+        if e[2] == "numstr":
+            if any(not isinstance(v, int) or isinstance(v, bool) for v in c["values"]):
+                return None
+            c["values"] = [str(v) for v in c["values"]]
+            c["dtype"] = "object"
+            return t
         c["dtype"] = e[2]
     elif op == "index":
         ix = copy.deepcopy(e[1])
